@@ -319,6 +319,47 @@ func init() {
 						}
 					}
 				}})
+			// text at every level of a deep nest of blocks (the count of open blocks passes powers of two)
+			depths := []int{1, 7, 8, 9, 31, 32, 33, 63, 64, 65, 66, 100, 127, 128, 129, 255, 256, 257, 300, 600}
+			nestKinds := [][2]string{{"@if(true)", "@end"}, {"@if(false)no@else", "@end"}, {"@each(v in [1])", "@end"}, {"@for(k = 0; k < 1; k++)", "@end"},
+				{"@if(false)no@elseif(1)", "@end"}, {"@each(v in [])no@else", "@end"}}
+			secs = append(secs, core.Section{Name: "deeply-nested-text", Exhaustive: true, N: len(depths) * (len(nestKinds) + 1),
+				Run: func(c *core.Ctx, i int) {
+					d := depths[i%len(depths)]
+					kind := i / len(depths)
+					var src, want strings.Builder
+					var closers []string
+					for l := 0; l < d; l++ {
+						nk := nestKinds[(kind+l)%len(nestKinds)]
+						if kind < len(nestKinds) {
+							nk = nestKinds[kind]
+						}
+						t := fmt.Sprintf("<l%d é }} \\ {>", l)
+						src.WriteString(t + nk[0])
+						want.WriteString(t)
+						closers = append(closers, nk[1]+fmt.Sprintf("</l%d>", l))
+					}
+					src.WriteString("innermost @ text")
+					want.WriteString("innermost @ text")
+					for l := d - 1; l >= 0; l-- {
+						src.WriteString(closers[l])
+						want.WriteString(fmt.Sprintf("</l%d>", l))
+					}
+					judge(c, fmt.Sprintf("nested-text-depth-%d", d), src.String(), want.String())
+				}})
+			// several goroutines render text at once, each its own: every byte still arrives, unchanged and in order
+			secs = append(secs, core.Section{Name: "concurrent-text", N: 12,
+				Run: func(c *core.Ctx, i int) {
+					c.Input(map[string]any{"goroutines": 8, "inputs_each": 200, "round": i})
+					c.Nontrivial(fmt.Sprint("text-burst", i, c.Seed))
+					concurrentBurst(c, 8, 200, func(g, n int) (string, map[string]any, string) {
+						id := fmt.Sprintf("%d.%d.%d.%d", c.Seed, i, g, n)
+						run := strings.Repeat(string(rune('a'+g)), 1+(n*37+g*11)%300)
+						src := "<p g" + id + ">" + run + " }} { \\ é中\n\\{{ x" + id + " }}" + run + "{{-- c" + id + " {{ y }} @if( --}}\\@if(" + id + ")" + run + "</p>"
+						want := "<p g" + id + ">" + run + " }} { \\ é中\n{{ x" + id + " }}" + run + "@if(" + id + ")" + run + "</p>"
+						return src, nil, want
+					})
+				}})
 			// text of a custom error page, written by Response for a page that fails
 			secs = append(secs, core.Section{Name: "text-in-custom-error-page", Exhaustive: true, N: len(fileTexts),
 				Run: func(c *core.Ctx, i int) {
